@@ -22,10 +22,11 @@ from sedpack.io import Dataset, Metadata, DatasetStructure, Attribute  # noqa: E
 SPLITS = H.SPLITS
 OPENS = [0]
 SPY = {"on": False}
+LEFTOVER = set()      # threads that were already alive when the request started (workers of an earlier, abandoned iteration)
 
 
 def _hook(event, args):
-    if SPY["on"] and event == "open" and isinstance(args[0], (str, bytes, os.PathLike)):
+    if SPY["on"] and event == "open" and isinstance(args[0], (str, bytes, os.PathLike)) and threading.current_thread() not in LEFTOVER:
         p = os.fsdecode(args[0])
         if p.endswith((".fb", ".npz")) and args[1] in ("r", "rb", 0, None, "rb+"):
             OPENS[0] += 1
@@ -219,6 +220,8 @@ def run_request(root, r, timeout):
     def target():
         try:
             CALLS.clear()
+            LEFTOVER.clear()
+            LEFTOVER.update(t for t in threading.enumerate() if t is not threading.current_thread())
             OPENS[0] = 0
             SPY["on"] = bool(r.get("spy"))
             if r.get("seed") is not None:
